@@ -560,15 +560,10 @@ impl<const K: usize> AffTree<K> {
                 "path should only contain decision nodes"
             );
 
-            let factor = match label {
-                1 => 1.0,
-                0 => -1.0,
-                _ => panic!("label should be 0 or 1, but got {}", &label),
-            };
-
-            let aff = &current_node.value.aff;
-            let poly_node = Polytope::from_mats(&aff.mat * factor, &aff.bias * factor);
-            cache.push(poly_node);
+            cache.push(super::iter::halfspaces_of_label(
+                &current_node.value.aff,
+                *label,
+            ));
         }
         let in_dim = self.in_dim();
 
